@@ -16,9 +16,9 @@ type c02Case struct {
 	DB     []eCmd    `json:"db"`
 	Query  []int     `json:"q"`
 	Opts   eOpts     `json:"opts"`
-	Runs   [][]eRes  `json:"runs"`  // repeated calls on one Database, then on an independently loaded copy
-	Sugg   [][][]int `json:"sugg"`  // repeated GetSuggestions
-	Kind   string    `json:"kind"`  // generated | tie | shipped
+	Runs   [][]eRes  `json:"runs"` // repeated calls on one Database, then on an independently loaded copy
+	Sugg   [][][]int `json:"sugg"` // repeated GetSuggestions
+	Kind   string    `json:"kind"` // generated | tie | shipped
 	NoteDB string    `json:"note_db,omitempty"`
 }
 
@@ -108,6 +108,11 @@ func runC02(seed int64, n int, replay string, e *emitter) {
 			loadShipped()
 			c.Query = ints(shippedQueries[(i/10)%len(shippedQueries)])
 			c.Opts = eOpts{Limit: []int{5, 10, 3}[r.Intn(3)], NLP: r.Intn(2) == 0, Fuzzy: true, Threshold: -30}
+		case i%5 == 2:
+			c.Kind = "shared"
+			var q string
+			cmds, q, c.Opts = eSharedTieScenario(r)
+			c.Query = ints(q)
 		case i%3 == 0:
 			c.Kind = "tie"
 			cmds = c02TieDB(r)
